@@ -3,6 +3,7 @@ mod c02;
 mod c03;
 mod dissect;
 mod c04;
+mod c06;
 mod c17;
 mod coin;
 mod common;
@@ -10,6 +11,9 @@ mod desc;
 mod gen;
 mod genair;
 mod inst;
+
+#[global_allocator]
+static ALLOC: vf_core::crash::GuardAlloc = vf_core::crash::GuardAlloc;
 
 fn main() {
     let args = vf_core::parse_args();
@@ -23,6 +27,7 @@ fn main() {
         "C02" => c02::run(&mut run),
         "C03" => c03::run(&mut run),
         "C04" => c04::run(&mut run),
+        "C06" => c06::run(&mut run),
         "C17" => c17::run(&mut run),
         other => {
             eprintln!("vf-stark does not serve {other} yet");
